@@ -33,7 +33,10 @@ class C05(ProgramProperty):
             "possibly bridging two records. After EVERY operation the records and the five lookup structures are "
             "read, a probe set (every registered prefix / URI prefix ± one symbol, strings of the new record) is "
             "queried, and the same probes are asked of a converter freshly built from the current records. "
-            "Non-trivial = the history contains a merge followed by a rejection or another merge.")
+            "Non-trivial = the history contains a merge followed by a rejection or another merge. In 20 % of the cases a twin "
+            "converter goes through the same calls first, in 25 % a derivative (chain / get_subconverter / deep copy / pickle) of "
+            "the converter is curated at the end and the converter is observed again; the Lean checker expects, after every "
+            "add, exactly the records the history denotes (expectedAfterAdd).")
     assumptions = ["str.casefold is a parameter of the model (theorems hold for every folding function); the harness "
                    "ships the real casefold of every string of the case"]
 
@@ -103,6 +106,32 @@ class C05(ProgramProperty):
                     steps += [q(c, "compress", u), q(c, "standardize_uri", u)]
                 for p in sel:
                     steps += [q(c, "expand", p + delim + "7"), q(c, "standardize_prefix", p), q(c, "expand_pair_all", p, "7")]
+        if rng.random() < 0.2:
+            # another converter in the same process went through exactly the same calls before (nothing a call builds
+            # or remembers may be shared between converters)
+            twin = [dict(init_step(5, start, delim), _tail=True)]
+            twin += [dict(st, c=5, _tail=True) for st in steps if st["op"] in ("add_record", "add_prefix")]
+            steps = twin + steps
+            kinds.append("twin-with-the-same-history-first")
+        if cur and rng.random() < 0.25:
+            # the converter is derived from (chain / get_subconverter / deep copy / pickle) and the derivative is curated:
+            # a merge into one of its records and a new record; the converter itself must not notice
+            k = rng.choice(["chain", "sub", "deepcopy", "pickle"] if delim == ":" else ["deepcopy", "pickle"])
+            if k == "chain":
+                tail = [{"op": "chain", "dst": 6, "srcs": [0]}]
+            elif k == "sub":
+                tail = [{"op": "sub", "dst": 6, "src": 0, "prefixes": [r["p"] for r in cur]}]
+            else:
+                tail = [{"op": "clone", "dst": 6, "src": 0, "how": k}]
+            t = rng.choice(cur)
+            tail += [{"op": "add_prefix", "c": 6, "p": t["p"], "u": cps("http://derived.example/u/"), "ps": [cps("dsyn")],
+                      "us": [cps("http://derived.example/u2/")], "merge": True},
+                     {"op": "add_prefix", "c": 6, "p": cps("dnew"), "u": cps("http://derived.example/new/"), "ps": [], "us": []}]
+            tail += [q(0, m) for m in SNAPSHOT] + [q(0, "delimiter")]
+            tail += [q(0, "standardize_prefix", "dsyn"), q(0, "expand_pair", "dnew", "1"), q(0, "compress", "http://derived.example/u/1"),
+                     q(0, "standardize_uri", "http://derived.example/u2/1"), q(0, "parse_uri", "http://derived.example/new/1")]
+            steps += [dict(st, _tail=True) for st in tail]
+            kinds.append("derivative-curated:" + k)
         return {"steps": steps, "delim": delim, "tags": kinds + [f"ops={nops}"]}
 
     def _ops(self, case, impl):
